@@ -34,6 +34,8 @@ type (
 		height     uint32
 		lastHash   crypto.Uint256
 		validators []dbft.PublicKey
+
+		lastTimestamp uint64
 	}
 )
 
@@ -94,6 +96,12 @@ func (n *simNode) Run(ctx context.Context) {
 			n.d.OnTimeout(n.d.Timer.Height(), n.d.Timer.View())
 		case msg := <-n.messages:
 			n.d.OnReceive(msg)
+		}
+
+		// Block for the current height was accepted by the ledger, it's our
+		// duty to start consensus process for the next one.
+		if n.height >= n.d.BlockIndex {
+			n.d.Reset(n.lastTimestamp)
 		}
 	}
 }
@@ -187,6 +195,7 @@ func (n *simNode) ProcessBlock(b dbft.Block[crypto.Uint256]) error {
 
 	n.height = b.Index()
 	n.lastHash = b.Hash()
+	n.lastTimestamp = n.d.Timestamp
 	return nil
 }
 
